@@ -1,7 +1,7 @@
 (* C09 - the COUNTER LEDGER of an asyncfix endpoint across restarts: executable model.
 
    What is modelled (asyncfix/connection.py, journaler.py, session.py), line by line including the
-   defects D11 / D12 / D14 / D20 / D22 of DESIGN.md section 7:
+   defects D11 / D14 / D20 / D22 of DESIGN.md section 7:
      live counters next_num_in / next_num_out, connection state class, role, _max_seq_num_resend;
      the journal of ONE session as a projection of Fix/Journal.v (stored counters, inbound keys,
      outbound rows; committed / current tables; implicit transaction, commit; the SQL statements of
@@ -10,7 +10,8 @@
      send_msg (state gates, number selection of the codec, write, drain, journal write AFTER the write),
      _process_message (_validate_integrity, first-message rule, _process_logon / _seqreset / _logout,
      _check_seqnum_gaps, dispatch, except-swallow, finally _finalize_message), _process_resend
-     (rewind by set_seq_num, replay / gap-fill loop, restore), disconnect.
+     (replay / gap-fill loop; since the repair of D12 it writes neither journal nor counters, and send_msg does
+     not journal PossDup copies / gap fills), disconnect.
    Frames are symbolic: (type, MsgSeqNum, PossDupFlag, two parameters).  CompIDs / BeginString are
    always right, TestReqID handling is out of scope (_test_req_id is None throughout).
 
@@ -219,6 +220,10 @@ Definition set_seq_num (o i : option Z) : M unit :=
 
 Definition is_disc (s : cstate) : bool := cstate_eqb s Disc.
 
+(* PossDupFlag = Y, or SequenceReset with GapFillFlag = Y *)
+Definition unjournaled (m : frame) : bool :=
+  f_pd m || (mtype_eqb (f_type m) TSeqReset && negb (f_b m =? 0)).
+
 (* m: the FIXMessage handed over; f_seq m is its tag 34 when it has one (SequenceReset, PossDup) *)
 Definition send_msg (m : frame) : M unit :=
   w <- get ;;
@@ -239,7 +244,8 @@ Definition send_msg (m : frame) : M unit :=
   let f := mkF (f_type m) n (f_pd m) (f_a m) (f_b m) in
   emit [EWrite f] ;;;
   emit [EDrain] ;;;
-  persist_out f.
+  (* replies to a ResendRequest (PossDup copies, gap fills) are not journaled: the journal keeps the originals *)
+  if unjournaled m then ret tt else persist_out f.
 
 (* disconnect(state <= BROKEN, logout_message = None | text) *)
 Definition disconnect (with_logout : bool) : M unit :=
@@ -302,25 +308,21 @@ Fixpoint replay_loop (rows : list frame) (gfb gfe : Z) : M (Z * Z) :=
         replay_loop rows' (f_seq r + 1) gfe
   end.
 
-(* _process_resend after the state switch *)
-Definition resend_core (f : frame) : M unit :=
-  let b := f_a f in
+(* _process_resend: the journal and the counters are not touched (repair of D12) *)
+Definition process_resend (f : frame) : M unit :=
+  w <- get ;;
+  (if cstate_eqb (st w) Awaiting then ret tt else set_st Handling) ;;;
+  (* invalid request (BeginSeqNo < 1): answer from the first message *)
+  let b := if f_a f <? 1 then 1 else f_a f in
   let e := if f_b f =? 0 then MAXSIZE else f_b f in
   w <- get ;;
   let rows := recover_out (jt w) b e in
   let current := nout w in
-  set_seq_num (Some b) None ;;;
   g <- replay_loop rows b b ;;
   assert_ (snd g <=? current) ;;;
   (if fst g <? current then send_msg (mkF TSeqReset (fst g) false current 1) else ret tt) ;;;
-  set_seq_num (Some current) None ;;;
   w <- get ;;
   if cstate_eqb (st w) Awaiting then ret tt else set_st Active.
-
-Definition process_resend (f : frame) : M unit :=
-  w <- get ;;
-  (if cstate_eqb (st w) Awaiting then ret tt else set_st Handling) ;;;
-  resend_core f.
 
 (* FIXSession.set_next_num_in + _finalize_message *)
 Definition finalize (f : frame) : M unit :=
